@@ -16,6 +16,13 @@ impl Linter for CurrencyPlacement {
                 lints.extend(generate_lint_for_tokens(a, b, document));
             }
 
+            // `number, whitespace, currency` at the very start of a chunk has no predecessor.
+            if let Some((a, b, c)) = chunk.iter().tuple_windows().next() {
+                if b.kind.is_whitespace() {
+                    lints.extend(generate_lint_for_tokens(a, c, document));
+                }
+            }
+
             for (p, a, b, c) in chunk.iter().tuple_windows() {
                 if !b.kind.is_whitespace() || p.kind.is_currency() {
                     continue;
